@@ -80,7 +80,7 @@ func (c c14ChainSpec) String() string {
 func c14ChainA(top int) c14ChainSpec {
 	c := c14ChainSpec{top: top}
 	for h := 0; h <= top+1; h++ {
-		c.maxBytes = append(c.maxBytes, int64(1000000+1000*h))
+		c.maxBytes = append(c.maxBytes, int64(5000000+1000*h))
 		c.power0 = append(c.power0, int64(10+h))
 		c.third = append(c.third, h%2 == 0)
 		c.appv = append(c.appv, uint64(h))
@@ -119,30 +119,62 @@ func c14ChainB(top int, r *vg.Rand) c14ChainSpec {
 	return c
 }
 
-func c14MakeChain(c c14ChainSpec, t0 time.Time) map[int64]c14Block {
-	pvs := []types.MockPV{
-		types.NewMockPVWithParams(ed25519.GenPrivKeyFromSecret([]byte("c14-val-0")), false, false),
-		types.NewMockPVWithParams(ed25519.GenPrivKeyFromSecret([]byte("c14-val-1")), false, false),
-		types.NewMockPVWithParams(ed25519.GenPrivKeyFromSecret([]byte("c14-val-2")), false, false),
-	}
-	valsAt := func(h int64) *types.ValidatorSet {
-		var vs []*types.Validator
-		for i, pv := range pvs {
-			pk, _ := pv.GetPubKey()
-			power := int64(10)
-			if i == 0 {
-				power = c.power0[h]
-			}
-			if i == 2 {
-				if !c.third[h] {
-					continue
-				}
-				power = 4
-			}
-			vs = append(vs, types.NewValidator(pk, power))
+var c14PVs = []types.MockPV{
+	types.NewMockPVWithParams(ed25519.GenPrivKeyFromSecret([]byte("c14-val-0")), false, false),
+	types.NewMockPVWithParams(ed25519.GenPrivKeyFromSecret([]byte("c14-val-1")), false, false),
+	types.NewMockPVWithParams(ed25519.GenPrivKeyFromSecret([]byte("c14-val-2")), false, false),
+}
+
+// the chain's validator set at height h (1..top+1)
+func (c c14ChainSpec) valsAt(h int64) *types.ValidatorSet {
+	var vs []*types.Validator
+	for i, pv := range c14PVs {
+		pk, _ := pv.GetPubKey()
+		power := int64(10)
+		if i == 0 {
+			power = c.power0[h]
 		}
-		return types.NewValidatorSet(vs)
+		if i == 2 {
+			if !c.third[h] {
+				continue
+			}
+			power = 4
+		}
+		vs = append(vs, types.NewValidator(pk, power))
 	}
+	return types.NewValidatorSet(vs)
+}
+
+// chain D: changes are sparse - the validator set changes at heights 3 and 6 only, the params at
+// 4 and 7, the app version at 5 - so that the states following a snapshot mostly write records
+// that POINT to the height of the last change (resolved through the records Bootstrap wrote)
+func c14ChainD(top int) c14ChainSpec {
+	c := c14ChainSpec{top: top}
+	for h := 0; h <= top+1; h++ {
+		mb, pw, av := int64(3000000), int64(10), uint64(1)
+		if h >= 4 {
+			mb = 3000400
+		}
+		if h >= 7 {
+			mb = 3000700
+		}
+		if h >= 3 {
+			pw = 13
+		}
+		if h >= 6 {
+			pw = 17
+		}
+		if h >= 5 {
+			av = 2
+		}
+		c.maxBytes, c.power0, c.third, c.appv, c.appHash = append(c.maxBytes, mb), append(c.power0, pw), append(c.third, h >= 6), append(c.appv, av), append(c.appHash, []byte{0xd0, byte(h)})
+	}
+	return c
+}
+
+func c14MakeChain(c c14ChainSpec, t0 time.Time) map[int64]c14Block {
+	pvs := c14PVs
+	valsAt := c.valsAt
 	chain := map[int64]c14Block{}
 	lastID := types.BlockID{}
 	for h := int64(1); h <= int64(c.top); h++ {
@@ -247,14 +279,19 @@ func TestVerifC14Prov(t *testing.T) {
 	root := vg.NewRand(vg.Seed())
 	t0 := time.Now().Add(-time.Hour)
 	const top = 9
-	specs := []c14ChainSpec{c14ChainA(top), c14ChainB(top, root.Fork(777001)), c14ChainB(top, root.Fork(777002))}
+	specs := []c14ChainSpec{c14ChainA(top), c14ChainB(top, root.Fork(777001)), c14ChainB(top, root.Fork(777002)), c14ChainD(top)}
 	type built struct {
 		headers map[int64]*types.SignedHeader
 		vals    map[int64]*types.ValidatorSet
 		lbTerms []string
 	}
 	var chains []built
-	for _, spec := range specs {
+	for i, spec := range specs {
+		for h := int64(1); h <= top+1; h++ {
+			if err := types.ValidateConsensusParams(spec.params(h)); err != nil {
+				t.Fatalf("C14 harness: chain %d has invalid consensus params at height %d: %v", i, h, err)
+			}
+		}
 		chain := c14MakeChain(spec, t0)
 		b := built{headers: map[int64]*types.SignedHeader{}, vals: map[int64]*types.ValidatorSet{}}
 		for h := int64(1); h <= top; h++ {
@@ -298,6 +335,7 @@ func TestVerifC14Prov(t *testing.T) {
 		h           uint64
 		initial     int64
 		trust       int64
+		pre         bool // the genesis state was saved to the state store before the bootstrap
 	}
 	var cfgs []cfg
 	// every height of chain A and of one seeded chain against the honest stub
@@ -305,7 +343,10 @@ func TestVerifC14Prov(t *testing.T) {
 		cfgs = append(cfgs, cfg{chain: 0, h: h, initial: []int64{0, 1, 5}[h%3], trust: 1})
 	}
 	for h := uint64(1); h <= top; h++ {
-		cfgs = append(cfgs, cfg{chain: 1, h: h, initial: []int64{0, 1, 5}[(h+1)%3], trust: 1})
+		cfgs = append(cfgs, cfg{chain: 1, h: h, initial: []int64{0, 1, 5}[(h+1)%3], trust: 1, pre: h%2 == 0})
+	}
+	for h := uint64(1); h <= top-2; h++ {
+		cfgs = append(cfgs, cfg{chain: 3, h: h, initial: []int64{0, 1, 5}[(h+2)%3], trust: 1, pre: h%2 == 1})
 	}
 	// heights the light client cannot vouch for
 	for _, h := range []uint64{0, 1<<63 - 3, 1<<63 - 2, 1<<63 - 1, 1 << 63, 1<<64 - 2, 1<<64 - 1} {
@@ -315,11 +356,11 @@ func TestVerifC14Prov(t *testing.T) {
 	for m := 1; m < c14StubModes; m++ {
 		cfgs = append(cfgs, cfg{chain: 0, mode: m, up: m%2 == 0, h: uint64(2 + m%5), trust: 1})
 	}
-	n := vg.Scale(56, 600)
+	n := vg.Scale(64, 600)
 	for k := len(cfgs); k < n; k++ {
 		r := root.Fork(uint64(k))
 		c := cfg{chain: r.Intn(len(specs)), h: uint64(1 + r.Intn(top)), initial: []int64{0, 1, 5}[r.Intn(3)], up: r.Bool(),
-			trust: []int64{1, 1, 4, top}[r.Intn(4)]}
+			trust: []int64{1, 1, 4, top}[r.Intn(4)], pre: r.Bool()}
 		if r.Chance(60) {
 			c.mode = r.Intn(c14StubModes)
 		}
@@ -334,8 +375,8 @@ func TestVerifC14Prov(t *testing.T) {
 	}
 
 	for _, c := range cfgs {
-		id := cs.NextID()
-		if !cs.Want(id) {
+		id, idBoot := cs.NextID(), cs.NextID()
+		if !cs.Want(id) && !cs.Want(idBoot) {
 			continue
 		}
 		spec, ch := specs[c.chain], chains[c.chain]
@@ -387,10 +428,7 @@ func TestVerifC14Prov(t *testing.T) {
 		chainID := ""
 		if errS == nil {
 			chainID = st.ChainID
-			stTerm = vg.Tup(vg.Z(st.InitialHeight), vg.Z(int64(st.Version.Consensus.Block)), vg.Z(int64(st.Version.Consensus.App)),
-				vg.Z(st.LastBlockHeight), vg.Z(st.LastBlockTime.UnixNano()), vg.Hx(st.LastBlockID.Hash), vg.Hx(st.AppHash),
-				vg.Hx(st.LastResultsHash), vg.Hx(st.LastValidators.Hash()), vg.Hx(st.Validators.Hash()), vg.Hx(st.NextValidators.Hash()),
-				vg.Z(st.LastHeightValidatorsChanged), vg.Hx(types.HashConsensusParams(st.ConsensusParams)), vg.Z(st.LastHeightConsensusParamsChanged))
+			stTerm = c14StateTerm(st)
 			stDescr = fmt.Sprintf("{ChainID:%s InitialHeight:%d Version.Consensus:{Block:%d App:%d} LastBlockHeight:%d LastBlockID:%X AppHash:%x LastResultsHash:%X LastValidators:%X Validators:%X NextValidators:%X LastHeightValidatorsChanged:%d ConsensusParams.Block.MaxBytes:%d LastHeightConsensusParamsChanged:%d}",
 				st.ChainID, st.InitialHeight, st.Version.Consensus.Block, st.Version.Consensus.App, st.LastBlockHeight, st.LastBlockID.Hash, st.AppHash,
 				st.LastResultsHash, st.LastValidators.Hash(), st.Validators.Hash(), st.NextValidators.Hash(), st.LastHeightValidatorsChanged,
@@ -412,9 +450,42 @@ func TestVerifC14Prov(t *testing.T) {
 		term := vg.App("CProv", vg.L(ch.lbTerms), vg.L(rpcTerms), vg.Z(c.initial), c14U(h),
 			vg.Tup(vg.Hx([]byte(chainID)), vg.Hx([]byte(c14Chain))),
 			vg.Tup(vg.Z(code(errA)), vg.Hx(ah)), vg.Tup(vg.Z(code(errC)), vg.Hx(cmHash)), vg.Tup(vg.Z(code(errS)), stTerm))
-		cs.Add(id, fmt.Sprintf("prov-chain%d-rpc%d", c.chain, c.mode), errS == nil, term,
-			fmt.Sprintf("honest chain of %d blocks, light client trusted at height %d:%s; initialHeight %d; consensus_params stub mode %d (0 honest, 1 foreign params, 2 error, 3 params of the adjacent height (up=%v) labelled as asked, 4 label 0, 5 invalid params, 6 params as asked under the adjacent label, 7 label %d, 8 adjacent height's params under its own label), asked for heights %v: AppHash(%d)=(%x,%v) Commit(%d)=(%x,%v) State(%d)=%s err=%v",
-				top, c.trust, spec, c.initial, c.mode, c.up, top+3, asked, h, ah, errA, h, cmHash, errC, h, stDescr, errS))
+		if cs.Want(id) {
+			cs.Add(id, fmt.Sprintf("prov-chain%d-rpc%d", c.chain, c.mode), errS == nil, term,
+				fmt.Sprintf("honest chain of %d blocks, light client trusted at height %d:%s; initialHeight %d; consensus_params stub mode %d (0 honest, 1 foreign params, 2 error, 3 params of the adjacent height (up=%v) labelled as asked, 4 label 0, 5 invalid params, 6 params as asked under the adjacent label, 7 label %d, 8 adjacent height's params under its own label), asked for heights %v: AppHash(%d)=(%x,%v) Commit(%d)=(%x,%v) State(%d)=%s err=%v",
+					top, c.trust, spec, c.initial, c.mode, c.up, top+3, asked, h, ah, errA, h, cmHash, errC, h, stDescr, errS))
+		}
+		// what node.startStateSync does with this state and commit, on real stores
+		if errS == nil && errC == nil && cm != nil && cs.Want(idBoot) {
+			var pre, succs []sm.State
+			if c.pre {
+				ini := c.initial
+				if ini == 0 {
+					ini = 1
+				}
+				g1 := spec.valsAt(1)
+				pre = append(pre, sm.State{
+					Version: st.Version, ChainID: c14Chain, InitialHeight: ini, LastBlockTime: t0,
+					NextValidators: g1.CopyIncrementProposerPriority(1), Validators: g1, LastValidators: types.NewValidatorSet(nil),
+					LastHeightValidatorsChanged: ini, ConsensusParams: spec.params(1), LastHeightConsensusParamsChanged: ini,
+				})
+			}
+			prev := st
+			for z := int64(h); z+3 <= top && len(succs) < 2; z++ {
+				hd := ch.headers[z+1]
+				nx, err := c14Successor(prev, hd.Header, hd.Commit.BlockID, spec.valsAt(z+2), spec.valsAt(z+3),
+					spec.maxBytes[z+2] != spec.maxBytes[z+1], spec.params(z+2), ch.headers[z+2].LastResultsHash, ch.headers[z+2].AppHash)
+				if err != nil {
+					t.Fatal(err)
+				}
+				succs = append(succs, nx)
+				prev = nx
+			}
+			bterm, bdescr := c14BootCase(ch.lbTerms, pre, st, cm, succs)
+			cs.Add(idBoot, fmt.Sprintf("boot-chain%d-succ%d", c.chain, len(succs)), len(succs) > 0, bterm,
+				fmt.Sprintf("honest chain of %d blocks:%s; real state store + block store (MemDB); State(%d), Commit(%d) of the real lightClientStateProvider (light client trusted at %d, honest consensus_params stub mode %d); %s",
+					top, spec, h, h, c.trust, c.mode, bdescr))
+		}
 	}
 	if err := cs.Write(); err != nil {
 		t.Fatal(err)
